@@ -61,3 +61,17 @@ fn utf8_ascii_stub(v: &[u8]) -> std::result::Result<(), core::str::Utf8Error> {
     }
     Ok(())
 }
+
+/// Stand-in for core::str::count::do_count_chars (word-at-a-time, alignment dependent; only used by
+/// core for strings of >= 32 bytes): the plain definition "number of non-continuation bytes".
+#[allow(dead_code)]
+fn count_chars_stub(s: &str) -> usize {
+    let b = s.as_bytes();
+    let mut n = 0;
+    let mut i = 0;
+    while i < b.len() {
+        if (b[i] as i8) >= -0x40 { n += 1; }
+        i += 1;
+    }
+    n
+}
